@@ -588,8 +588,42 @@ def run_derive(case):
     return {"nontrivial": mutated > 0, "labels": labels}
 
 
+def bystanders():
+    """Aggregators built by calls that rely on the default arguments (quantity=identity, value=Count(), the default
+    selection of HistogramCut ...): whatever a case does to other aggregators, these stay what they are, and a call made
+    afterwards gives the same as a call made before."""
+    hg = lib()
+    import histogrammar.convenience as cv  # noqa: PLC0415
+
+    return {
+        "Bin(n,l,h)": hg.Bin(4, -2.0, 2.0),
+        "Select(cut=Count())": hg.Select(cut=hg.Count()),
+        "Sum()": hg.Sum(),
+        "Bag()": hg.Bag(),
+        "Categorize()": hg.Categorize(),
+        "SparselyBin(w)": hg.SparselyBin(1.0),
+        "Fraction()": hg.Fraction(),
+        "Stack(t)": hg.Stack([0.0]),
+        "HistogramCut(n,l,h,q)": cv.HistogramCut(4, -2.0, 2.0, QX),
+        "UntypedLabel(a=Minimize(), b=Deviate())": hg.UntypedLabel(a=hg.Minimize(), b=hg.Deviate()),
+    }
+
+
 def check(case):
     lib()
+    by = bystanders()
+    before = {k: snapshot(v) for k, v in by.items()}
+    out = check_case(case)
+    for k, v in by.items():
+        now = snapshot(v)
+        require(now == before[k], "interference", lambda: f"a separately constructed {k} changed while the case ran: {norm.fmt(norm.diff(before[k][0], now[0], norm.BITEXACT))} / {before[k][1]} vs {now[1]}", {"bystander": k.split("(")[0]})  # noqa: B023
+    for k, v in bystanders().items():
+        now = snapshot(v)
+        require(now == before[k], "default-arguments-changed", lambda: f"{k} constructed after the case differs from the one constructed before it: {norm.fmt(norm.diff(before[k][0], now[0], norm.BITEXACT))} / {before[k][1]} vs {now[1]}", {"bystander": k.split("(")[0]})  # noqa: B023
+    return out
+
+
+def check_case(case):
     m = case.get("mode")
     if m == "derive":
         return run_derive(case)
